@@ -5,6 +5,7 @@ import (
 	"errors"
 	"fmt"
 	"io"
+	"maps"
 	"math"
 	"strings"
 
@@ -425,7 +426,10 @@ func (dr *DialogueRunner) RestoreAt(snapshot *Snapshot) error {
 		return fmt.Errorf("dialogue does not contain a node with title [%s]", snapshot.CurrentNode)
 	}
 
-	dr.visitedNodes = snapshot.VisitedNodes
+	dr.visitedNodes = maps.Clone(snapshot.VisitedNodes)
+	if dr.visitedNodes == nil {
+		dr.visitedNodes = map[string]int{}
+	}
 	dr.variableStorer.Clear()
 	for variable, value := range snapshot.Variables {
 		if value.Boolean != nil {
@@ -471,9 +475,9 @@ func (dr *DialogueRunner) ConvertAndAddCommand(commandID string, command any) er
 // It can then be used to later restore the state of the dialogue runner.
 func (dr *DialogueRunner) Snapshot() *Snapshot {
 	return &Snapshot{
-		Variables:    dr.variableSnapshot,
+		Variables:    maps.Clone(dr.variableSnapshot),
 		CurrentNode:  dr.currentNode,
-		VisitedNodes: dr.visitedNodes,
+		VisitedNodes: maps.Clone(dr.visitedNodes),
 	}
 }
 
